@@ -67,14 +67,27 @@ class VLoop(asyncio.SelectorEventLoop):
         super()._run_once()
 
 
+DEFAULT_PROBS = {"send": 0.05, "conn": 0.2, "wait": 0.3, "tags": 0.3, "evd": 1.0}
+
+
 class Choices:
-    def __init__(self, prefix: list[int]):
+    """Choice source: the prefix, then (if `rnd` is given) random non-default choices with per-tag
+    probability, else 0.  `values` replays the whole run when given as prefix."""
+
+    def __init__(self, prefix: list[int], rnd=None, probs: dict | None = None):
         self.prefix = list(prefix)
+        self.rnd = rnd
+        self.probs = dict(DEFAULT_PROBS, **(probs or {}))
         self.log: list[tuple[str, int, int]] = []   # (tag, domain, value)
 
     def pick(self, tag: str, n: int) -> int:
         i = len(self.log)
-        v = self.prefix[i] if i < len(self.prefix) else 0
+        if i < len(self.prefix):
+            v = self.prefix[i]
+        elif self.rnd is not None and n > 1 and self.rnd.random() < self.probs.get(tag, 0.0):
+            v = self.rnd.randrange(1, n) if tag != "evd" else self.rnd.randrange(0, n)
+        else:
+            v = 0
         if v >= n:
             v = 0
         self.log.append((tag, n, v))
@@ -83,6 +96,10 @@ class Choices:
     @property
     def exhausted(self) -> bool:
         return len(self.log) >= len(self.prefix)
+
+    @property
+    def values(self) -> list[int]:
+        return [v for _, _, v in self.log]
 
 
 @dataclass
@@ -102,6 +119,12 @@ class Result:
     errors: list[str]
     seqs: dict[int, list[int]]           # id -> every sequence number observed on it
     iterations: int = 0
+    acked: list[int] = field(default_factory=list)       # ids answered ok, in order
+    cancelled: list[int] = field(default_factory=list)   # ids whose in-flight send was cancelled
+    rejected: list[int] = field(default_factory=list)    # ids refused by _post_async ("invalid state")
+    seq_ctr: int = 0                                     # dispatcher._sequence_number at the end
+    limbo: list[int] = field(default_factory=list)       # failed, handler has not buffered them (yet / ever)
+    faults: int = 0
 
 
 class _LogBuf(list):
@@ -117,9 +140,15 @@ class _LogBuf(list):
 
 class Sim:
     def __init__(self, script: list[tuple], prefix: list[int], mode: str = "conn", horizon: float = 40.0,
-                 ev_window: int = 40, max_faults: int = 99):
+                 ev_window: int = 40, max_faults: int = 99, rnd=None, probs: dict | None = None,
+                 early_events: bool = False):
         self.script = list(script)
-        self.ch = Choices(prefix)
+        self.ch = Choices(prefix, rnd, probs)
+        self.early_events = early_events
+        self.acked: list[int] = []
+        self.cancelled_ids: list[int] = []
+        self.rejected_ids: list[int] = []
+        self.failed_open: list[int] = []
         self.mode = mode
         self.horizon = horizon
         self.max_faults = max_faults
@@ -207,7 +236,9 @@ class Sim:
                       final_buffer=[self.mid(m) for m in r._message_buffer],
                       final_inflight=[e["id"] for e in self.disp.queue],
                       quiescent=self.quiescent, t_end=loop.time(), errors=self.errors, seqs=self.seqs,
-                      iterations=loop.iteration)
+                      iterations=loop.iteration, acked=self.acked, cancelled=self.cancelled_ids,
+                      rejected=self.rejected_ids, seq_ctr=self.disp._sequence_number,
+                      limbo=sorted(self.failed_open), faults=self.faults)
 
     async def _main(self):
         loop = self.loop
@@ -225,7 +256,8 @@ class Sim:
             await asyncio.sleep(0.05)
             r = self.runner
             calm = (r._state in ("Connected", "Reconnected") and not r._message_buffer and not self.disp.queue
-                    and self._script_pos >= len(self.script) and self.ch.exhausted and not self.disp.broken)
+                    and self._script_pos >= len(self.script) and self.ch.exhausted and not self.disp.broken
+                    and (self.ch.rnd is None or self.faults >= self.max_faults or loop.time() > self.horizon / 2))
             if calm:
                 if done_at is None:
                     done_at = loop.time() + 0.4
@@ -243,7 +275,7 @@ class Sim:
         if r._state == "Reconnected" and len(r._message_buffer) > 0:
             if not self.stranded or self.stranded[-1]["ids"] != [self.mid(m) for m in r._message_buffer]:
                 self.stranded.append({"t": self.loop.time(), "ids": [self.mid(m) for m in r._message_buffer]})
-        if self._script_pos < len(self.script) and self.first_steady:
+        if self._script_pos < len(self.script) and (self.first_steady or self.early_events):
             # an engine event arrives (call_soon_threadsafe from the engine thread) at a loop-iteration boundary;
             # which one: `evd` = number of further iterations-with-runner-activity to let pass first
             if self._ev_wait is None:
@@ -477,6 +509,9 @@ def _dispatcher_class():
                     self._arm()
                 else:
                     sim.attempts[entry["att"]]["outcome"] += ":cancelled-after"
+                    if i in sim.failed_open:
+                        sim.failed_open.remove(i)
+                sim.cancelled_ids.append(i)
                 sim.log(f"Z{i}")
                 raise
             if not ok:
@@ -497,6 +532,7 @@ def _dispatcher_class():
                 e = self.queue.pop(0)
                 ok = e["outcome"] == "ok"
                 sim.log(("K" if ok else "F") + str(e["id"]))
+                (sim.acked if ok else sim.failed_open).append(e["id"])
                 sim.attempts[e["att"]]["outcome"] = e["outcome"]
                 if not e["fut"].done():
                     e["fut"].set_result(ok)
@@ -545,6 +581,8 @@ def _runner_class():
             seq = sim.note_seq(message)
             if i not in sim.buffered_ids:
                 sim.buffered_ids.append(i)
+            if i in sim.failed_open:
+                sim.failed_open.remove(i)
             sim.log(("Q" if caller == "buffer_messages" else "B") + f"{i}:{seq}")
 
         @property
@@ -581,6 +619,7 @@ def _runner_class():
             r = await super()._post_async(message)
             if isinstance(r, M.ErrorMessage) and r.message is not None and r.message.endswith("invalid state"):
                 self._sim.log(f"X{self._sim.mid(message)}")
+                self._sim.rejected_ids.append(self._sim.mid(message))
             return r
 
     return SimRunner
@@ -659,23 +698,32 @@ def simulate(script: list[tuple], prefix: list[int], **kw) -> Result:
 # `faults` transport faults), depth-first in lexicographic order, optionally only over the first
 # `depth` choice points.
 
-def explore(script, dev: int, faults: int, limit: int, depth: int = 10 ** 9, **kw):
-    """Yields (prefix, Result)."""
-    stack: list[list[int]] = [[]]
+def is_fault(tag: str, v: int) -> bool:
+    return (tag == "send" and v in (1, 3)) or (tag == "conn" and v == 1)
+
+
+def explore(script, faults: int, others: int, total: int, limit: int, depth: int = 10 ** 9, **kw):
+    """Yields (prefix, Result), breadth first over choice sequences that deviate from the default schedule in
+    at most `faults` transport faults (failed send / failed connect), at most `others` other choices (slow
+    answer, reconnect wait, event position, empty tag update) and at most `total` places altogether, the
+    deviations being among the first `depth` choice points of the run.  Stops after `limit` runs
+    (`explore.complete` tells whether the scope was exhausted)."""
+    from collections import deque
+    queue: deque[tuple[list[int], int, int]] = deque([([], 0, 0)])
     seen = 0
-    while stack and seen < limit:
-        prefix = stack.pop()
+    explore.complete = False
+    while queue and seen < limit:
+        prefix, nf, no = queue.popleft()
         res = simulate(script, prefix, max_faults=faults, **kw)
         seen += 1
         yield prefix, res
-        used = sum(1 for v in prefix if v)
-        if used >= dev:
+        if nf + no >= total:
             continue
         log = res.choices
-        # children: deviate at one later choice point (keeps every sequence generated exactly once)
-        nxt = []
         for pos in range(len(prefix), min(len(log), depth)):
             tag, dom, _ = log[pos]
             for v in range(1, dom):
-                nxt.append(prefix + [0] * (pos - len(prefix)) + [v])
-        stack.extend(reversed(nxt))
+                f = is_fault(tag, v)
+                if (f and nf < faults) or (not f and no < others):
+                    queue.append((prefix + [0] * (pos - len(prefix)) + [v], nf + f, no + (not f)))
+    explore.complete = not queue
